@@ -651,3 +651,56 @@ def load(repo=None):
     if key not in _PROGRAMS:
         _PROGRAMS[key] = Program(repo)
     return _PROGRAMS[key]
+
+
+_SINGLE_LOCALS = {}
+
+
+def single_assignment_locals(func_node):
+    """id -> initialiser of the locals of a function that are initialised at their declaration and never
+    assigned afterwards (named flags, aliases of sub-expressions)."""
+    key = id(func_node)
+    if key not in _SINGLE_LOCALS:
+        inits, assigned = {}, set()
+        for x in walk(func_node):
+            k = x.get('kind')
+            if k == 'VarDecl' and 'id' in x:
+                c = [y for y in children(x) if not y['kind'].endswith('Attr') and not y['kind'].endswith('Comment')]
+                if c:
+                    inits[x['id']] = c[-1]
+            elif k in ('BinaryOperator', 'CompoundAssignOperator') and (x.get('opcode') or '').endswith('=') \
+                    and x.get('opcode') not in ('==', '!=', '<=', '>='):
+                l = strip(children(x)[0])
+                if l.get('kind') == 'DeclRefExpr':
+                    assigned.add((l.get('referencedDecl') or {}).get('id'))
+            elif k == 'UnaryOperator' and x.get('opcode') in ('++', '--'):
+                l = strip(children(x)[0])
+                if l.get('kind') == 'DeclRefExpr':
+                    assigned.add((l.get('referencedDecl') or {}).get('id'))
+            elif k == 'CXXOperatorCallExpr':
+                c = children(x)
+                nm = (strip(c[0]).get('referencedDecl') or {}).get('name') if c else None
+                if nm in ('operator=', 'operator+=', 'operator-=', 'operator++', 'operator--') and len(c) > 1:
+                    l = strip(c[1])
+                    if l.get('kind') == 'DeclRefExpr':
+                        assigned.add((l.get('referencedDecl') or {}).get('id'))
+        _SINGLE_LOCALS[key] = {k: v for k, v in inits.items() if k not in assigned}
+    return _SINGLE_LOCALS[key]
+
+
+def walk_expanded(node, func_node, depth=4):
+    """walk(node), following references to single-assignment locals of the function into their initialisers:
+    a condition written through a named flag is seen as the condition itself."""
+    loc = single_assignment_locals(func_node)
+    seen = set()
+
+    def rec(n, d):
+        for x in walk(n):
+            yield x
+            if d > 0 and x.get('kind') == 'DeclRefExpr':
+                i = (x.get('referencedDecl') or {}).get('id')
+                if i in loc and i not in seen:
+                    seen.add(i)
+                    for y in rec(loc[i], d - 1):
+                        yield y
+    return rec(node, depth)
